@@ -205,12 +205,13 @@ def ob_value(defuzz, explicit, kinds, skeleton, agg_name, batch=0, zero_at=None,
                               f"B = {B}",
                               "names = [n for n, _ in acts[0]]",
                               "degs = [np.array([W[b][i] for b in range(B)]) if B > 1 else W[0][i] for i in range(len(names))]",
-                              "alist = [fl.Activated(terms[n], d, fl.Minimum()) for n, d in zip(names, degs)]",
+                              "alist = [fl.Activated(terms[n], d, None if i == 0 else fl.Minimum()) for i, (n, d) in enumerate(zip(names, degs))]",
                               "if zero_at is not None: alist.insert(zero_at[0], fl.Activated(terms[zero_at[1]], np.zeros(B) if B > 1 else 0.0, fl.Minimum()))",
                               "fo = fl.Aggregated('out', 0.0, 1.0, agg, alist)",
                               f"kind = {kind!r}",
                               "try:",
                               "    with np.errstate(all='ignore'): got = np.atleast_1d(np.asarray(D.defuzzify(fo), dtype=float))",
+                              "    with np.errstate(all='ignore'): again = np.atleast_1d(np.asarray(D.defuzzify(fo), dtype=float))      # defuzzifying is a pure function of the set",
                               "    raised = None",
                               "except TypeError as ex:",
                               "    raised = ex; got = None",
@@ -218,7 +219,8 @@ def ob_value(defuzz, explicit, kinds, skeleton, agg_name, batch=0, zero_at=None,
                               "    verdict(raised is None, 'mixed kinds under Automatic were accepted: %r' % (got,))",
                               "if raised is not None: verdict(True, 'raised %r' % (raised,))",
                               "exp = [reference(type(D).__name__, kind, [(n, W[b][i]) for i, n in enumerate(names)], terms, aggf) for b in range(B)]",
-                              f"verdict(not same(got, exp, 1e-9), '{defuzz}({explicit}) over %r degrees %r: %r, documented %r' % (names, W, got.tolist(), exp))"])
+                              "kept = all(same(a.degree, d) for a, d in zip([a for k_, a in enumerate(fo.terms) if zero_at is None or k_ != zero_at[0]], degs))",
+                              f"verdict(not same(got, exp, 1e-9) or not same(again, exp, 1e-9) or not kept, '{defuzz}({explicit}) over %r degrees %r: %r, a second time %r, documented %r; degrees kept: %r' % (names, W, got.tolist(), again.tolist(), exp, kept))"])
 
         rp = replay_fn(PROPERTY, label, rbody, key=None)
 
@@ -229,7 +231,8 @@ def ob_value(defuzz, explicit, kinds, skeleton, agg_name, batch=0, zero_at=None,
 
         def body():
             engine, terms = build()
-            acts = [fl.Activated(terms[j], sym_array(W[i]) if batch else W[i][0], fl.Minimum()) for i, j in enumerate(skeleton)]
+            # weighted defuzzifiers disregard the implication: the first activation carries none (as rule blocks without one produce)
+            acts = [fl.Activated(terms[j], sym_array(W[i]) if batch else W[i][0], None if i == 0 else fl.Minimum()) for i, j in enumerate(skeleton)]
             if zero_at:
                 z = sym_array([core.const(0.0)] * B) if batch else core.const(0.0)
                 acts.insert(zero_at[0], fl.Activated(terms[zero_at[1]], z, fl.Minimum()))
@@ -238,9 +241,11 @@ def ob_value(defuzz, explicit, kinds, skeleton, agg_name, batch=0, zero_at=None,
             got = D.defuzzify(fo)
             if kind == "TypeError":
                 return got, None
+            again = D.defuzzify(fo)           # a second defuzzification of the same set: same value, activations untouched
+            kept = [(a.degree, sym_array(W[i]) if batch else W[i][0]) for i, a in enumerate(a_ for k_, a_ in enumerate(fo.terms) if not zero_at or k_ != zero_at[0])]
             # the statement's value, computed inside the exploration (term methods such as Arc.tsukamoto branch in Python)
             exps = [oracle(fl, defuzz, kind, [(j, W[i][b]) for i, j in enumerate(skeleton)], terms, agg_name) for b in range(B)]
-            return got, exps
+            return got, exps, again, kept
 
         for p in ob.paths(pre, body, catch=(Exception,)):
             if kind == "TypeError":
@@ -254,7 +259,7 @@ def ob_value(defuzz, explicit, kinds, skeleton, agg_name, batch=0, zero_at=None,
             if p.exc is not None:
                 ob.unexpected(pre, p, label, ins, rp)
                 continue
-            got, exps = p.result
+            got, exps, again, kept = p.result
             ge = elements(got)
             if len(ge) != B:
                 ob.prove(pre, p, False, f"{label}: result has {len(ge)} elements for a batch of {B}", ins, rp)
@@ -263,6 +268,9 @@ def ob_value(defuzz, explicit, kinds, skeleton, agg_name, batch=0, zero_at=None,
             for b in range(B):
                 claims.append(same(ge[b], exps[b]))
             ob.prove(pre, p, z3.And(*claims), label, ins, rp)
+            ae = elements(again)
+            ob.prove(pre, p, z3.And(len(ae) == B, *[same(ae[b], exps[b]) for b in range(min(B, len(ae)))],
+                                    *[same(x, y) for g, w in kept for x, y in zip(elements(g), elements(w))]), f"{label}/defuzzified-again", ins, rp)
             if skeleton:
                 # NaN exactly when the total weight is zero (finite z)
                 for b in range(B):
